@@ -6,7 +6,9 @@ cd /repo || exit 2
 export CARGO_NET_OFFLINE=true
 tmp=$(mktemp)
 trap 'rm -f "$tmp"' EXIT
-cargo nextest run --workspace --no-fail-fast --offline >"$tmp" 2>&1 || true
+# the integration tests of this repository bind fixed ports (9128...) in every test process, so a
+# parallel run can hit 'Address already in use': same thread count as the recorded baseline, plus retries
+cargo nextest run --workspace --no-fail-fast --offline --test-threads 8 --retries 2 >"$tmp" 2>&1 || true
 if ! grep -q "Summary" "$tmp"; then
   cargo test --workspace --no-fail-fast --offline >"$tmp" 2>&1 || true
 fi
